@@ -979,7 +979,7 @@ pub fn generate(ctx: &mut Ctx) {
         ctx.case("rt:nested", &format!("rt {}", show_f(&f)));
     }
     // random well-formed trees: round trip, visitor, spelling
-    let n = ctx.n(2500, 120_000);
+    let n = ctx.n(2500, 300_000);
     for _ in 0..n {
         let mut rng = ctx.rng.fork();
         let depth = match rng.below(10) {
@@ -1011,7 +1011,7 @@ pub fn generate(ctx: &mut Ctx) {
         }
     }
     // arbitrary constructible trees: `to_string` fidelity for every Value kind
-    let n = ctx.n(300, 10_000);
+    let n = ctx.n(300, 30_000);
     for _ in 0..n {
         let mut rng = ctx.rng.fork();
         let any = |r: &mut Rng| gen::value(r, &Cfg::any(2));
@@ -1023,7 +1023,7 @@ pub fn generate(ctx: &mut Ctx) {
         ctx.case("pr:any", &format!("pr {s}"));
     }
     // mutated / invalid texts
-    let n = ctx.n(2500, 120_000);
+    let n = ctx.n(2500, 300_000);
     for _ in 0..n {
         let mut rng = ctx.rng.fork();
         let depth = if rng.chance(1, 3) { 1 } else { 0 };
